@@ -216,7 +216,8 @@ impl Sut {
         let (k, dl) = d.split_once(':')?;
         let p = key_path(k)?;
         let dl: i64 = dl.parse().ok()?;
-        let base = match self.store.head(&p).await {
+        // through a fresh instance: resolving a date must not touch the metadata cache under test
+        let base = match build_store(self.flavor, self.backend.clone()).head(&p).await {
             Ok(m) => m.last_modified,
             Err(_) => chrono::DateTime::from_timestamp_millis(1000)?,
         };
